@@ -38,8 +38,8 @@ NOTES = "Exit codes: 0 all obligations discharged; 1 VIOLATION (a named obligati
 
 PROPS["C12"] = {
     "level": "proof",
-    "technique": "Verus soundness contracts on the extracted QueryEngine::convert_expr_to_predicate and convert_scalar_to_predicate_value over a DataFusion Expr shim (whenever a predicate is produced, every row the WHERE expression accepts satisfies it: comparisons, BETWEEN / NOT BETWEEN, IN / NOT IN, AND, OR, NOT at every depth); Verus soundness contract on the extracted evaluate_against_stats (every arm, And/Or/Not recursion) against row semantics over an abstract totally pre-ordered key domain; Kani complete harnesses for the numeric leaf comparators on the real serde_json::Value",
-    "verus": ["c12_pruning.rs.in"],
+    "technique": "Verus soundness contracts on the extracted QueryEngine::convert_expr_to_predicate and convert_scalar_to_predicate_value over a DataFusion Expr shim (whenever a predicate is produced, every row the WHERE expression accepts satisfies it: comparisons, BETWEEN / NOT BETWEEN, IN / NOT IN, AND, OR, NOT at every depth); Verus soundness contract on the extracted evaluate_against_stats (every arm, And/Or/Not recursion) against row semantics over an abstract totally pre-ordered key domain; Kani complete harnesses for the numeric leaf comparators on the real serde_json::Value; the plan walk extract_predicates_from_plan (new template c12_scope): the predicates handed to pruning are exactly those of the Filters on a plain chain (Filter / Sort / Limit) above the TableScan -- a filter above a projection, aggregate, join or alias never gates chunks by the stored column of that name (F67), proved for every plan shape by structural recursion",
+    "verus": ["c12_pruning.rs.in", "c12_scope.rs.in"],
     "kani": ["c12_leaves"],
     "explanation": "",
     "assumptions": [
@@ -123,8 +123,8 @@ PROPS["C03"] = {
 
 PROPS["C20"] = {
     "level": "other",
-    "technique": "Verus contracts on the extracted in-memory get_l0_candidates (only L0 chunks, none selected twice, groups of at least min_count) and get_level_candidates (only chunks of the requested level, none selected twice, groups of at least two) and local complete_compaction (level = max source level + 1, computed before the sources are deleted); Verus contracts on the extracted candidate selection (object-store get_level_candidates: selected paths are exactly the chunks of the requested level, each in one group only) and on the level arithmetic of complete_compaction (target strictly above every source)",
-    "verus": ["c03_compaction.rs.in", "c20_local.rs.in"],
+    "technique": "Verus contracts on the extracted in-memory get_l0_candidates (only L0 chunks, none selected twice, groups of at least min_count) and get_level_candidates (only chunks of the requested level, none selected twice, groups of at least two) and local complete_compaction (level = max source level + 1, computed before the sources are deleted); Verus contracts on the extracted candidate selection (object-store get_level_candidates: selected paths are exactly the chunks of the requested level, each in one group only) and on the level arithmetic of complete_compaction (target strictly above every source); the compaction slot guard (CompactionSlot::take counts, drop un-counts exactly one: a slot cannot outlive its compaction, F66)",
+    "verus": ["c03_compaction.rs.in", "c20_local.rs.in", "c20_slots.rs.in"],
     "explanation": "Per-call obligations: no chunk is selected into two groups of one call, only chunks of the level being compacted are grouped, the merged chunk's level is strictly above every source level and no other chunk's level changes. Convergence over repeated cycles is argued from these contracts (each successful merge of >= 2 live sources removes at least one catalog entry and never lowers a level; levels are bounded by max_levels + 1) but the whole-history induction is not mechanised.",
     "assumptions": [
         "HashMap::into_iter().filter().map().collect() yields exactly the entries satisfying the (lifted, verified) predicate, each key once; sort_by_key is a permutation; std::mem::take returns the old vector and leaves an empty one",
@@ -152,7 +152,7 @@ PROPS["C02"] = {
 
 PROPS["C17"] = {
     "level": "other",
-    "technique": "Verus contract on the row-building loop of convert_prom_to_arrow (one row per sample of every series in order; every column one cell per row; each row carries its own series' metric name, its sample's timestamp in ns and its series' label values, None where the series lacks the label), over the Kani-decided value routing and ms->ns scaling of the same text; Verus functional contract on the extracted OTLP export_request_to_data_points (eight nested loops: the output is, in request order, exactly one point per data point of the request, each with its own timestamp, metric name and the resource attributes of its own ResourceMetrics entry merged with its own), on number_point_to_metric_point and on data_points_to_arrow (one row per point; fixed columns carry timestamp / name / value; exactly one column per label key occurring in any point, cell = the point's value for the key or NULL); Verus typestate contract on handle_remote_write (204 only after exactly the converted batch was written once; undecodable bodies are answered 400 and write nothing); Verus totality + termination + completeness contracts on the extracted protobuf reader (read_varint, parse_sample, parse_label, parse_timeseries, parse_write_request: every index, slice bound and addition proved safe for all byte strings, position strictly increasing; a varint is refused only if truncated or longer than ten bytes); Kani complete harnesses for the checked end computation, the value routing over all f64 bit patterns, the ms->ns conversion and the OTLP number value (exact for doubles and integers up to 2^53); bounded harness for the varint value",
+    "technique": "Verus contract on the row-building loop of convert_prom_to_arrow (one row per sample of every series in order; every column one cell per row; each row carries its own series' metric name, its sample's timestamp in ns and its series' label values, None where the series lacks the label), over the Kani-decided value routing and ms->ns scaling of the same text; Verus functional contract on the extracted OTLP export_request_to_data_points (eight nested loops: the output is, in request order, exactly one point per data point of the request, each with its own timestamp, metric name and the resource attributes of its own ResourceMetrics entry merged with its own), on number_point_to_metric_point and on data_points_to_arrow (one row per point; fixed columns carry timestamp / name / value; exactly one column per label key occurring in any point, cell = the point's value for the key or NULL); Verus typestate contract on handle_remote_write (204 only after exactly the converted batch was written once; undecodable bodies are answered 400 and write nothing); Verus totality + termination + completeness contracts on the extracted protobuf reader (read_varint, parse_sample, parse_label, parse_timeseries, parse_write_request: every index, slice bound and addition proved safe for all byte strings, position strictly increasing; a varint is refused only if truncated or longer than ten bytes); Kani complete harnesses for the checked end computation, the value routing over all f64 bit patterns, the ms->ns conversion and the OTLP number value (exact for doubles and integers up to 2^53); bounded harness for the varint value; the entry of Ingester::write and compute_shard_id (row-0 reads of the key columns are in bounds for every batch with a row, and write answers a batch without rows before reading any: F65)",
     "verus": ["c17_parsers.rs.in", "c17_otlp.rs.in", "c17_prom_rows.rs.in", "c17_handler.rs.in"],
     "kani": ["c17_ingest"],
     "explanation": "Parser totality and termination are proved unbounded by Verus on the extracted text; end computation, value routing (all f64 bit patterns) and ms->ns conversion are complete Kani proofs; the varint value formula is checked by a bounded Kani harness (16-byte window). Values are opaque in the Verus units (f64 conversions are decided by the Kani units); snappy / prost / Flight decoding and FlightIngestService::process_stream are not under contract; known finding F28 (OTLP integers beyond 2^53). Hence level other.",
@@ -230,7 +230,7 @@ PROPS["C15"] = {
 
 PROPS["C18"] = {
     "level": "other",
-    "technique": "Verus contracts on the extracted QueryFilter::apply (merge-point cut on the timestamp column, conjunction of the predicate list, row selection: exactly the wanted rows are delivered, None only if there is none), apply_predicate_to_mask (AND / OR / NOT over masks), apply_comparison and compare_f64 (row mask of `column OP literal` over typed arrow arrays: NULL never matches, every operator is its own symbol, a number literal is compared numerically against both numeric column types); Verus contracts on the extracted TopicFilter::matches (equals the filter's denotation, recursion through And / Or with the any / all closures lifted), FilteredReceiver::recv (delivers the first pending batch that matches, skips exactly the non-matching ones before it), the publishing side (Ingester::extract_metrics returns exactly the non-null metric names of the batch it is given; the publish step of flush_batches sends one topic batch whose metadata -- metric list and shard -- describes the very batch it carries) and the WHERE-clause extractor of the live filter (from_sql, extract_predicates_from_set_expr, try_column_op_value, try_extract_comparison, conjunction_of, extract_predicates_from_expr over a sqlparser AST shim: the filter of a one-statement `SELECT ... WHERE e` is built from e; for comparisons in either operand order, AND, OR and parentheses the conjunction of the extracted list is equivalent to the WHERE clause)",
+    "technique": "Verus contracts on the extracted QueryFilter::apply (merge-point cut on the timestamp column, conjunction of the predicate list, row selection: exactly the wanted rows are delivered, None only if there is none), apply_predicate_to_mask (AND / OR / NOT over masks), apply_comparison and compare_f64 (row mask of `column OP literal` over typed arrow arrays: NULL never matches, every operator is its own symbol, a number literal is compared numerically against both numeric column types); Verus contracts on the extracted TopicFilter::matches (equals the filter's denotation, recursion through And / Or with the any / all closures lifted), FilteredReceiver::recv (delivers the first pending batch that matches, skips exactly the non-matching ones before it), the publishing side (Ingester::extract_metrics returns exactly the non-null metric names of the batch it is given; the publish step of flush_batches sends one topic batch whose metadata -- metric list and shard -- describes the very batch it carries) and the WHERE-clause extractor of the live filter (from_sql, extract_predicates_from_set_expr, try_column_op_value, try_extract_comparison, conjunction_of, extract_predicates_from_expr over a sqlparser AST shim: the filter of a one-statement `SELECT ... WHERE e` is built from e; for comparisons in either operand order, AND, OR and parentheses the conjunction of the extracted list is equivalent to the WHERE clause); QueryFilter::parse_sql_value against `denotes` (a signed or parenthesised number is read as the number written: F68; formerly an assumed shim)",
     "frame_scans": [{"file": "src/ingester/mod.rs", "patterns": ["topic_broadcast.send(", "TopicBatch {"],
                      "allowed_units": ["flush_publish"],
                      "message": "topic batches are built and published only by the flush path under contract (metadata describes the batch that is sent)"}],
@@ -248,7 +248,7 @@ PROPS["C18"] = {
 PROPS["C04"] = {
     "level": "other",
     "technique": "Verus contract on the extracted QueryEngine::extract_time_from_expr over a DataFusion Expr shim (every timestamp the WHERE clause may accept lies inside the extracted bounds: comparisons in either operand order, =, BETWEEN / NOT BETWEEN, AND, OR at every depth) and on the default handling of extract_time_range (time_range_defaults, has_time_predicate, node_has_time_predicate, mentions_time_column: only a statement without any time predicate is narrowed to the last hour); Verus contract on the body of QueryNode::query_for_tenant between the metadata lookup and the answer (the statement is evaluated over exactly the chunks the lookup returned, the byte count is theirs); composed with the exact chunk lookup (C07) and sound statistics pruning (C12)",
-    "verus": ["c04_timebounds.rs.in", "c07_local.rs.in", "c07_s3.rs.in", "c12_pruning.rs.in", "c04_registration.rs.in", "c04_query.rs.in"],
+    "verus": ["c04_timebounds.rs.in", "c07_local.rs.in", "c07_s3.rs.in", "c12_pruning.rs.in", "c04_registration.rs.in", "c04_query.rs.in", "c12_scope.rs.in"],
     "kani": ["c12_leaves"],
     "explanation": "C04 is decided only for the three pruning stages cardinalsin itself implements: (1) the extracted time range over-approximates the accepted timestamps (proved; a window side the extractor cannot read stays unbounded whenever the statement has a time predicate at all -- units has_time_predicate / node_has_time_predicate / mentions_time_column / time_range_defaults, defect F10b repaired; a statement with no time predicate anywhere gets the product default 'last hour' and is outside the property's family), (2) the chunk lookup returns exactly the chunks meeting the range (C07 units), (3) statistics pruning never drops a chunk that can contain a matching row (C12 units). That DataFusion evaluates the SQL correctly on the registered files, per-query table registration and adaptive-index independence are assumed, not verified; convert_expr_to_predicate is not under contract yet.",
     "assumptions": [
